@@ -77,6 +77,10 @@ def sample_opts(r, nroots, sym):
             o["isolate"] = True
     if o["match_links"] and o["symbolic_links"]:
         o["symbolic_links"] = False  # dangerous combination is C02's exclusion; keep the model simple here
+    if not o["transform"] and r.random() < 0.15:
+        # the counting rule does not depend on which stages ran (the classes of these trees differ in their first bytes,
+        # so size + prefix + suffix already tell them apart)
+        o["skip_content_hash"] = True
     return o
 
 
@@ -119,7 +123,7 @@ def run_case(arg):
         scanned = gm.scan_plain(roots_abs, symbolic_links=o["symbolic_links"])
         files = {p: {"key": gm.file_key(p, o), "id": fid} for p, fid in scanned.items()}
         expected = gm.expected_partition(files, o, roots_abs)
-        sigparts = "+".join(k for k in ("isolate", "match_links", "symbolic_links") if o[k]) or "plain"
+        sigparts = "+".join(k for k in ("isolate", "match_links", "symbolic_links", "skip_content_hash") if o.get(k)) or "plain"
         sigparts += ":" + (o["rf"][0] if o["rf"] else "default")
         results = {}
         out = []
